@@ -148,6 +148,9 @@ func run(c *vf.Ctx) {
 					if !bytes.Equal(in, data[:n]) {
 						c.Violation(p.name+" modifies its input buffer", det)
 					}
+					if cc != ctr || kk != key {
+						c.Violation(p.name+" modifies its counter or key argument", det)
+					}
 					// in == out
 					buf := outBack[off : off+n]
 					copy(buf, data[:n])
@@ -164,6 +167,10 @@ func run(c *vf.Ctx) {
 						det["aliasing"] = "in==out"
 						det["first_diff_at"] = firstDiff(buf, wantFull[:n])
 						c.Violation(p.name+" in-place output != Salsa20 spec keystream XOR input"+carryClass(carry32, wrap64), det)
+					}
+					if cc != ctr || kk != key {
+						det["aliasing"] = "in==out"
+						c.Violation(p.name+" modifies its counter or key argument", det)
 					}
 					if di == 0 && t.ki == 0 {
 						switch {
@@ -203,6 +210,18 @@ func run(c *vf.Ctx) {
 		}
 		longMax := longs[len(longs)-1]
 		lstarts := []uint64{0, 1<<32 - 5, binary.LittleEndian.Uint64(c.Bytes("c09-start", 0, 8))}
+		// carries DEEP inside the long call: the low counter word overflows (or the 64-bit counter
+		// wraps, or a higher byte carries) 2^j blocks = 2^(j+6) bytes after the start, i.e. just
+		// behind the 64 KiB, 256 KiB, 1 MiB, 2 MiB, 4 MiB points of the length grid
+		for _, j := range []uint{10, 12, 14, 15, 16} {
+			lstarts = append(lstarts, uint64(1)<<32-uint64(1)<<j-1)
+		}
+		one := uint64(1)
+		lstarts = append(lstarts, -(one<<14)-2, -(one<<16)+3, one<<40-one<<13-1, one<<56-one<<15-2, 0x7fffffff<<32|(one<<32-one<<14+1))
+		longData := make([]byte, longMax)
+		for i := range longData {
+			longData[i] = byte(i*7 + i>>11)
+		}
 		c.ParallelFor(len(lstarts), func(si int) {
 			start := lstarts[si]
 			var key [32]byte
@@ -213,11 +232,9 @@ func run(c *vf.Ctx) {
 			copy(ctr[:8], nonce[:])
 			binary.LittleEndian.PutUint64(ctr[8:], start)
 			ks := salsaref.KeyStream(key, nonce, start, longMax)
-			data := make([]byte, longMax)
-			for i := range data {
-				data[i] = byte(i*7 + i>>11)
-			}
+			data := longData
 			want := salsaref.XOR(data, ks)
+			ks = nil
 			out := make([]byte, longMax)
 			for _, n := range longs {
 				for _, p := range paths {
@@ -314,7 +331,8 @@ func run(c *vf.Ctx) {
 					out[i] = 0xA5
 				}
 				kk := key
-				nn := append([]byte(nil), nonce...)
+				// the nonce lives in a larger buffer with foreign bytes behind it (len decides, not cap)
+				nn := append(append(make([]byte, 0, len(nonce)+9), nonce...), 0xEE, 0xEE, 0xEE, 0xEE, 0xEE, 0xEE, 0xEE, 0xEE, 0xEE)[:len(nonce)]
 				det := map[string]any{"noncelen": t.nl, "len": n, "keyclass": t.ki, "dataclass": di}
 				pan, val, _ := vf.Protect(func() { salsa20.XORKeyStream(out[:n:n+guard], in, nn, &kk) })
 				c.Eval(1)
@@ -334,12 +352,27 @@ func run(c *vf.Ctx) {
 				if !bytes.Equal(out[n:], bytes.Repeat([]byte{0xA5}, guard)) {
 					c.Violation("salsa20.XORKeyStream writes beyond len(in)", det)
 				}
+				if kk != key || !bytes.Equal(nn, nonce) || !bytes.Equal(in, data[:n]) {
+					c.Violation("salsa20.XORKeyStream modifies its key, nonce or input argument ("+cls+")", det)
+				}
 				// out longer than in is allowed: only len(in) bytes are written
+				for i := range out {
+					out[i] = 0x5A
+				}
+				pan, _, _ = vf.Protect(func() { salsa20.XORKeyStream(out, in, nn, &kk) })
+				c.Eval(1)
+				if pan || !bytes.Equal(out[:n], wantFull[:n]) || !bytes.Equal(out[n:], bytes.Repeat([]byte{0x5A}, guard)) {
+					det["outlen"] = n + guard
+					c.Violation("salsa20.XORKeyStream with len(out) > len(in) != "+cls+" spec or writes beyond len(in)", det)
+				}
 				pan, _, _ = vf.Protect(func() { salsa20.XORKeyStream(in, in, nn, &kk) })
 				c.Eval(1)
 				if pan || !bytes.Equal(in, wantFull[:n]) {
 					det["aliasing"] = "in==out"
 					c.Violation("salsa20.XORKeyStream in-place != "+cls+" spec", det)
+				}
+				if kk != key || !bytes.Equal(nn, nonce) {
+					c.Violation("salsa20.XORKeyStream modifies its key or nonce argument ("+cls+")", det)
 				}
 				if di == 0 && n > 64 {
 					c.Nontrivial(fmt.Sprintf("x/%d/%d", t.nl, n))
@@ -351,15 +384,137 @@ func run(c *vf.Ctx) {
 		}
 	})
 
+	// ---- 3b. salsa20.XORKeyStream: one-hot sweep over every key and nonce bit ---------------
+	for _, nl := range []int{8, 24} {
+		nl := nl
+		c.ParallelFor(256+8*nl, func(bit int) {
+			var key [32]byte
+			nonce := make([]byte, nl)
+			if bit < 256 {
+				key[bit/8] = 1 << (bit % 8)
+			} else {
+				nonce[(bit-256)/8] = 1 << (bit % 8)
+			}
+			n := 64*5 + 7
+			var ks []byte
+			if nl == 8 {
+				var v [8]byte
+				copy(v[:], nonce)
+				ks = salsaref.KeyStream(key, v, 0, n)
+			} else {
+				var v [24]byte
+				copy(v[:], nonce)
+				ks = salsaref.XSalsa20KeyStream(key, v, 0, n)
+			}
+			out := make([]byte, n)
+			kk := key
+			nn := append([]byte(nil), nonce...)
+			pan, val, _ := vf.Protect(func() { salsa20.XORKeyStream(out, make([]byte, n), nn, &kk) })
+			c.Eval(1)
+			if pan {
+				c.Violation("salsa20.XORKeyStream panics on valid input", map[string]any{"noncelen": nl, "onehot_bit": bit, "panic": fmt.Sprint(val)})
+			} else if !bytes.Equal(out, ks) {
+				c.Violation("salsa20.XORKeyStream keystream wrong for one-hot key/nonce", map[string]any{"noncelen": nl, "onehot_bit": bit, "first_diff_at": firstDiff(out, ks)})
+			}
+			if kk != key || !bytes.Equal(nn, nonce) {
+				c.Violation("salsa20.XORKeyStream modifies its key or nonce argument (one-hot)", map[string]any{"noncelen": nl, "onehot_bit": bit})
+			}
+		})
+	}
+
+	// ---- 3c. salsa20.XORKeyStream on long inputs (Salsa20 and XSalsa20) ----------------------
+	{
+		maxK := 22
+		if c.Thorough {
+			maxK = 24
+		}
+		var longs []int
+		for k := 16; k <= maxK; k++ {
+			for _, d := range []int{-1, 0, 1, 63, 64, 65} {
+				longs = append(longs, 1<<uint(k)+d)
+			}
+		}
+		longMax := longs[len(longs)-1]
+		data := make([]byte, longMax)
+		for i := range data {
+			data[i] = byte(i*11 + i>>9)
+		}
+		type t3c struct{ nl, ki int }
+		t3cs := []t3c{{8, len(keys) - 1}, {24, len(keys) - 1}, {24, 3}}
+		c.ParallelFor(len(t3cs), func(ti int) {
+			t := t3cs[ti]
+			var key [32]byte
+			copy(key[:], keys[t.ki])
+			var nonce, ks []byte
+			cls := "Salsa20"
+			if t.nl == 8 {
+				var v [8]byte
+				copy(v[:], nonces[t.ki])
+				nonce = v[:]
+				ks = salsaref.KeyStream(key, v, 0, longMax)
+			} else {
+				var v [24]byte
+				copy(v[:], nonces24[t.ki])
+				nonce = v[:]
+				ks = salsaref.XSalsa20KeyStream(key, v, 0, longMax)
+				cls = "XSalsa20"
+			}
+			want := salsaref.XOR(data, ks)
+			ks = nil
+			out := make([]byte, longMax+guard)
+			for _, n := range longs {
+				for _, inplace := range []bool{false, true} {
+					in := data[:n]
+					dst := out[:n]
+					if inplace {
+						copy(dst, in)
+						in = dst
+					} else {
+						for i := range out[:n+guard] {
+							out[i] = 0xA5
+						}
+					}
+					kk := key
+					nn := append([]byte(nil), nonce...)
+					pan, val, _ := vf.Protect(func() { salsa20.XORKeyStream(dst, in, nn, &kk) })
+					c.Eval(1)
+					det := map[string]any{"noncelen": t.nl, "len": n, "inplace": inplace, "keyclass": t.ki}
+					if pan {
+						det["panic"] = fmt.Sprint(val)
+						c.Violation("salsa20.XORKeyStream panics on a long input", det)
+						continue
+					}
+					if !bytes.Equal(dst, want[:n]) {
+						det["first_diff_at"] = firstDiff(dst, want[:n])
+						c.Violation("salsa20.XORKeyStream differs from the "+cls+" model on a long input (>= 64 KiB)", det)
+					}
+					if !inplace && !bytes.Equal(out[n:n+guard], bytes.Repeat([]byte{0xA5}, guard)) {
+						c.Violation("salsa20.XORKeyStream writes beyond len(in) on a long input", det)
+					}
+					if kk != key || !bytes.Equal(nn, nonce) {
+						c.Violation("salsa20.XORKeyStream modifies its key or nonce argument (long input, "+cls+")", det)
+					}
+				}
+				c.Nontrivial(fmt.Sprintf("xlong/%d/%d/%d", t.nl, t.ki, n))
+			}
+		})
+	}
+
 	// ---- 4. HSalsa20 and Core208 ----------------------------------------------------------
 	hs := func(k [32]byte, in, cst [16]byte, tag string) {
 		want := salsaref.HSalsa20(cst, k, in)
 		var out [32]byte
+		for i := range out {
+			out[i] = 0xC3 ^ byte(i) // the destination holds an old value
+		}
 		kk, ii, cc := k, in, cst
 		pan, _, _ := vf.Protect(func() { salsa.HSalsa20(&out, &ii, &kk, &cc) })
 		c.Eval(1)
 		if pan || out != want {
 			c.Violation("HSalsa20 != definition", map[string]any{"case": tag, "got": fmt.Sprintf("%x", out), "want": fmt.Sprintf("%x", want)})
+		}
+		if kk != k || ii != in || cc != cst {
+			c.Violation("HSalsa20 modifies an input argument", map[string]any{"case": tag})
 		}
 		// out aliasing the key (this is how nacl/box.Precompute calls it)
 		kk = k
@@ -367,6 +522,9 @@ func run(c *vf.Ctx) {
 		c.Eval(1)
 		if pan || kk != want {
 			c.Violation("HSalsa20 with out==key != definition", map[string]any{"case": tag})
+		}
+		if ii != in || cc != cst {
+			c.Violation("HSalsa20 modifies an input argument", map[string]any{"case": tag, "aliasing": "out==key"})
 		}
 	}
 	nh := 64
@@ -420,6 +578,9 @@ func run(c *vf.Ctx) {
 	core := func(in [64]byte, tag string) {
 		want := salsaref.Salsa208(in)
 		var out [64]byte
+		for i := range out {
+			out[i] = 0x3C ^ byte(i) // the destination holds an old value
+		}
 		ii := in
 		pan, _, _ := vf.Protect(func() { salsa.Core208(&out, &ii) })
 		c.Eval(1)
@@ -448,6 +609,9 @@ func run(c *vf.Ctx) {
 		core(in, fmt.Sprintf("one-hot bit %d", bit))
 	}
 	c.Sample(map[string]any{"func": "Core208", "cases": nh + 4 + 512})
+	if string(salsa.Sigma[:]) != "expand 32-byte k" {
+		c.Violation("salsa.Sigma modified by a call", fmt.Sprintf("%q", salsa.Sigma[:]))
+	}
 }
 
 func carryClass(carry32, wrap64 bool) string {
